@@ -309,5 +309,6 @@ def coq_term(case, model):
     if op == "h.sub_vv":
         return "Ret (sub_vv %s %s %s)" % (coq_list(a[0]), coq_list(a[1]), coq_list(a[2])), coq_result(model)
     if op == "h.montgomery":
-        return "montgomery_z modpow %s %s %s %s %s" % (coq_list(a[0]), coq_list(a[1]), coq_list(a[2]), a[3][2:], a[4][2:]), coq_result(model)
+        # the op normalises its operands (the harness builds them with verif::biguint_from_vec)
+        return "montgomery_z modpow (strip %s) (strip %s) (strip %s) %s %s" % (coq_list(a[0]), coq_list(a[1]), coq_list(a[2]), a[3][2:], a[4][2:]), coq_result(model)
     return None
